@@ -22,6 +22,7 @@ def core_cfgs(tier, seed, want):
         add(n=3, m=2, s=2, p=2, w="diag", eps="default", mrhs=1)
         add(n=2, m=2, s=1, p=1, w="none", eps="sym", useed=1, vseed=u)
         add(n=3, m=2, s=1, p=2, w="diag", eps="neg", useed=0, vseed=1)
+        add(n=3, m=2, s=1, p=1, w="diag", eps="zero")
     if "basic" in want:
         # rationally parametrised frames: ALL rotations U (Euler-Rodrigues) and V ((1-k^2, 2k)/(1+k^2)), symbolic parameters
         add(n=3, m=2, s=1, p=1, w="diag", eps="sym", useed=9999, vseed=10000)
@@ -41,6 +42,10 @@ def core_cfgs(tier, seed, want):
         add(n=3, m=2, s=1, p=2, w="diag", hist=4, maxpaths=24)
         add(n=3, m=2, s=1, p=1, w="diag", hist=1)
         add(n=3, m=2, s=2, p=1, w="none", hist=1, mrhs=1)
+        # structure that is present at the first parameters only (an identically vanishing derivative column)
+        add(n=3, m=2, s=1, p=1, w="diag", hist=1, zero_d=0, maxpaths=16)
+        add(n=3, m=2, s=2, p=2, w="none", hist=4, zero_d=1, mrhs=1, maxpaths=16)
+        add(n=3, m=2, s=1, p=2, w="diag", hist=1, zero_d=1, par=1, maxpaths=16)
     if "faults" in want:
         add(n=3, m=2, s=1, p=1, w="diag", hist=2)
         add(n=3, m=2, s=1, p=1, w="none", hist=3)
@@ -54,6 +59,7 @@ def core_cfgs(tier, seed, want):
         add(n=3, m=2, s=1, p=1, w="diag", eps="sym", order=1)
         add(n=3, m=2, s=2, p=1, w="diag", eps="neg", order=2, mrhs=1)
         add(n=3, m=2, s=1, p=1, w="diag", eps="sym", order=3, par=1)
+        add(n=3, m=2, s=2, p=1, w="none", eps="zero", order=1, mrhs=1)
     if tier == "thorough":
         extra = []
         for (sc, d) in list(C):
@@ -541,13 +547,59 @@ R_PROPS.update({
     "C09": dict(prefixes=["C09", "C03.jacobian", "C10.fresh"], want={"faults"}, twins=[("core", dict(n=3, m=2, s=1, p=1, w="diag", hist=2, twin=1, useed=2, vseed=5))], twin_prefixes=["C09"]),
 })
 # C04: coherence of the state the optimizer leaves behind = C01/C02/C10 after update histories (incl. re-applying earlier parameters)
-R_PROPS["C04"] = dict(prefixes=["C01", "C02", "C10", "SVD"], want={"hist"})
+def symfit_cfgs(tier, seed, faults=False):
+    """the real fit() -- real Levenberg-Marquardt driver on the real problem -- on an affine model Phi(alpha) = A + sum alpha_k B_k
+    with one basis function (real nalgebra SVD); evaluation budgets patience*(P+1); paths are varied through budget, shape,
+    weights and the default values (`salt`), not by flipping the several hundred decisions of one run"""
+    base = dict(round_shadows=1, noflip=1)
+    C = []
+    if not faults:
+        shapes = [dict(n=3, p=1, patience=1), dict(n=3, p=1, patience=3), dict(n=3, p=1, patience=2, w="none", salt=1 + seed % 3),
+                  dict(n=4, p=2, patience=3, salt=2)]
+        if tier == "thorough":
+            shapes += [dict(n=3, p=1, patience=pt, salt=sl) for pt in (2, 4, 6) for sl in (3, 4, 5 + seed % 5)]
+            shapes += [dict(n=4, p=2, patience=pt, salt=sl, w=w) for pt in (1, 2, 4) for sl in (6, 7) for w in ("diag", "none")]
+            shapes += [dict(n=5, p=2, patience=2, salt=8), dict(n=4, p=3, patience=2, salt=9)]
+        for sh in shapes:
+            C.append(("symfit", dict(base, **sh)))
+    else:
+        # a model failure at call index k of the fit (set_params / eval / derivative calls are counted together)
+        ks = (0, 1, 2, 4, 7) if tier == "quick" else tuple(range(0, 14))
+        for k in ks:
+            C.append(("symfit", dict(base, n=3, p=1, patience=3, fail_at=k)))
+            if tier == "thorough":
+                C.append(("symfit", dict(base, n=4, p=2, patience=2, fail_at=k, persistent=1, salt=2)))
+        C.append(("symfit", dict(base, n=3, p=1, patience=3, fail_at=3, persistent=1)))
+    return C
+
+
+R_PROPS["C04"] = dict(prefixes=["C01", "C02", "C10", "SVD", "C04"], want={"hist"}, cfgs=lambda t, s: symfit_cfgs(t, s),
+                      twins=[("core", dict(n=3, m=2, s=1, p=1, w="diag", eps="sym", twin=1, useed=2, vseed=5)),
+                             ("symfit", dict(n=3, p=1, patience=2, round_shadows=1, noflip=1, twin=1), ["C04"])])
+R_PROPS["C09"]["cfgs"] = lambda t, s: symfit_cfgs(t, s, faults=True)
+R_PROPS["C08"] = dict(prefixes=["C08"], cfgs=lambda t, s: degenerate_cfgs(t, s), twins=[], check_divisors=False)
 R_PROPS["C01"]["prefixes"] = ["C01", "SVD"]
 R_PROPS["C01"]["extra"] = ["lin"]
 R_PROPS["C02"]["prefixes"] = ["C02", "SVD"]
 R_PROPS["C03"]["prefixes"] = ["C03", "SVD"]
 R_PROPS["C10"]["prefixes"] = ["C10", "SVD"]
 EXTRA["lin"] = lin_cfgs
+
+
+def degenerate_cfgs(tier, seed):
+    """C08, degenerate shapes on the symbolic scalar: fewer observations than basis functions, square, a single observation;
+    a panic on the explored paths (dimension mismatches do not depend on the values) is a fact `no_panic` = false"""
+    u, v = seeds(seed)
+    C = [("core", dict(n=2, m=3, s=1, p=1, w="diag", useed=u, vseed=v, maxpaths=8)),
+         ("core", dict(n=2, m=3, s=2, p=2, w="none", mrhs=1, useed=u, vseed=v, hist=1, maxpaths=8)),
+         ("core", dict(n=1, m=2, s=1, p=1, w="diag", useed=0, vseed=u, par=1, maxpaths=8)),
+         ("core", dict(n=2, m=2, s=1, p=2, w="diag", useed=u, vseed=v, hist=4, maxpaths=8)),
+         ("core", dict(n=1, m=1, s=2, p=1, w="none", real_svd=1, mrhs=1, maxpaths=8))]
+    if tier == "thorough":
+        C += [("core", dict(n=2, m=3, s=2, p=1, w="diag", mrhs=1, par=1, useed=v, vseed=u, maxpaths=16)),
+              ("core", dict(n=1, m=3, s=1, p=2, w="diag", useed=u, vseed=v, hist=1, maxpaths=16)),
+              ("core", dict(n=3, m=3, s=1, p=1, w="diag", useed=u, vseed=v, deriv_fail=0, maxpaths=16))]
+    return C
 
 
 def configs_for(prop, tier, seed):
